@@ -221,9 +221,15 @@ func (args *FilterArgs) ApplyFilter(now gotime.Time, rs []klog.Record) []klog.Re
 		qry.AfterOrEqual = args.Period.Since()
 	}
 	if args.After != nil {
+		if lastDate, _ := klog.NewDate(9999, 12, 31); args.After.IsEqualTo(lastDate) {
+			return nil // No date lies after the last representable one.
+		}
 		qry.AfterOrEqual = args.After.PlusDays(1)
 	}
 	if args.Before != nil {
+		if firstDate, _ := klog.NewDate(0, 1, 1); args.Before.IsEqualTo(firstDate) {
+			return nil // No date lies before the first representable one.
+		}
 		qry.BeforeOrEqual = args.Before.PlusDays(-1)
 	}
 	if args.Today {
